@@ -579,10 +579,72 @@ func c14FlushOnPush(c *Ctx, htcp *ssa.Function) {
 			sites = append(sites, call)
 		}
 	}
+	// the wake-up: the method(s) of the socket that send on the channel its Read waits on (today: flush)
+	wake := map[*ssa.Function]bool{}
+	if rd := p.Method(canaryRel, "Socket", "Read"); rd != nil {
+		waitField := map[int]bool{}
+		chanField := func(v ssa.Value) (int, bool) {
+			ld, ok := v.(*ssa.UnOp)
+			if !ok || ld.Op != token.MUL {
+				return 0, false
+			}
+			fa, ok := ld.X.(*ssa.FieldAddr)
+			if !ok || NamedOf(fa.X.Type()) == nil || NamedOf(fa.X.Type()).Obj().Name() != "Socket" {
+				return 0, false
+			}
+			return fa.Field, true
+		}
+		for _, b := range rd.Blocks {
+			for _, in := range b.Instrs {
+				switch x := in.(type) {
+				case *ssa.Select:
+					for _, st := range x.States {
+						if st.Dir == types.RecvOnly {
+							if fi, ok := chanField(st.Chan); ok {
+								waitField[fi] = true
+							}
+						}
+					}
+				case *ssa.UnOp:
+					if x.Op == token.ARROW {
+						if fi, ok := chanField(x.X); ok {
+							waitField[fi] = true
+						}
+					}
+				}
+			}
+		}
+		for _, fn := range p.FuncsIn(canaryRel) {
+			if fn == rd || fn.Blocks == nil || fn.Signature.Recv() == nil || NamedOf(fn.Signature.Recv().Type()) == nil || NamedOf(fn.Signature.Recv().Type()).Obj().Name() != "Socket" {
+				continue
+			}
+			for _, b := range fn.Blocks {
+				for _, in := range b.Instrs {
+					switch x := in.(type) {
+					case *ssa.Select:
+						for _, st := range x.States {
+							if st.Dir == types.SendOnly {
+								if fi, ok := chanField(st.Chan); ok && waitField[fi] {
+									wake[fn] = true
+								}
+							}
+						}
+					case *ssa.Send:
+						if fi, ok := chanField(x.Chan); ok && waitField[fi] {
+							wake[fn] = true
+						}
+					}
+				}
+			}
+		}
+	}
+	if !c.Anchor(len(wake) >= 1, rule, "the socket method that wakes a parked Read (sends on the channel Socket.Read waits on)") {
+		return
+	}
 	n := 0
 	for _, call := range sites {
 		f := call.Common().StaticCallee()
-		if f == nil || f.Name() != "flush" || PkgOf(f) != ModPath+"/"+canaryRel {
+		if f == nil || !wake[f] {
 			continue
 		}
 		if _, isDefer := call.(*ssa.Defer); isDefer {
